@@ -253,9 +253,25 @@ def run(ck):
                            drift=False, mode="high")
         ck.cov["model_rules_reached_before_repair"] = sorted(reached)
 
+    def packet_options():
+        """Scripted: NewPacketConn with options that cannot be applied to a UDP socket. The constructor of this tree
+        ignores its options (and succeeds); a constructor that applies them and fails must give the socket back.
+        Either outcome is judged by the monitor from the census; the expectation in the script is this tree's."""
+        beh = os.path.join(ck.work, "beh_pktopt.jsonl")
+        with open(beh, "w") as f:
+            for fail in ("opt", "opt2", "optbind"):
+                for rep in (1, 2):
+                    script = []
+                    for k in range(rep):
+                        script += [dict(op="Make", obj=k + 1, kind="pkt", fail=fail, xok=1, xnew=1)]
+                    for k in range(rep):
+                        script += [dict(op="Close", obj=k + 1, kind="pkt", xlost=1)]
+                    f.write(json.dumps(script) + "\n")
+        _judge(ck, sw, "pktopt", beh, "scripted: NewPacketConn with options that cannot be applied: 6 scripts", drift=False)
+
     cs = configs(ck.tier, ck.seed)
     with ThreadPoolExecutor(max_workers=6) as ex:
-        futs = [ex.submit(one, c) for c in cs] + [ex.submit(model_only)]
+        futs = [ex.submit(one, c) for c in cs] + [ex.submit(model_only), ex.submit(packet_options)]
         for f in futs:
             f.result()
     ck.cov["tlc_runs"].sort(key=lambda r: r["name"])
